@@ -41,7 +41,9 @@ static int legal (const Model * m, int op)
   switch (op) {
     case OP_NEW: return !m->prog;
     case OP_ADD_OK: case OP_ADD_MISMATCH: case OP_ADD_FLOAT: case OP_ADD_UNKNOWN:
-      return m->prog && !m->compiled && m->ninsn < 2 && !(op == OP_ADD_UNKNOWN && m->has_unknown);
+      /* also after a clean compile: the program is extended and has to be compiled again before it is run */
+      if (m->compiled) return m->prog && m->compiled == 1 && !m->sticky && m->ninsn < 2 && op != OP_ADD_UNKNOWN;
+      return m->prog && m->ninsn < 2 && !(op == OP_ADD_UNKNOWN && m->has_unknown);
     case OP_COMPILE_DEFAULT: case OP_COMPILE_SSE: case OP_COMPILE_MMX: case OP_COMPILE_C:
       return m->prog && m->ninsn > 0;
     case OP_TAKE: return m->prog && m->runnable && !m->code;
@@ -61,9 +63,9 @@ static void step_model (Model * m, int op, int result_class)
 {
   switch (op) {
     case OP_NEW: m->prog = 1; m->sticky = 0; m->ninsn = 0; m->last_float = m->has_float = m->has_mismatch = m->has_unknown = 0; m->compiled = 0; m->runnable = 0; break;
-    case OP_ADD_OK: m->ninsn++; m->last_float = 0; break;
-    case OP_ADD_MISMATCH: m->ninsn++; m->has_mismatch = 1; break;
-    case OP_ADD_FLOAT: m->ninsn++; m->last_float = 1; m->has_float = 1; break;
+    case OP_ADD_OK: m->ninsn++; m->last_float = 0; m->runnable = 0; break;
+    case OP_ADD_MISMATCH: m->ninsn++; m->has_mismatch = 1; m->runnable = 0; break;
+    case OP_ADD_FLOAT: m->ninsn++; m->last_float = 1; m->has_float = 1; m->runnable = 0; break;
     case OP_ADD_UNKNOWN: m->has_unknown = 1; break;
     case OP_COMPILE_DEFAULT: case OP_COMPILE_SSE: case OP_COMPILE_MMX: case OP_COMPILE_C:
       m->compiled = result_class == 2 ? 2 : 1;
